@@ -62,14 +62,26 @@ pub fn stats_from_json(v: &Value, prop: &'static str) -> (Stats, Vec<Found>) {
     (s, found)
 }
 
+/// cap the address space of a worker / isolated child so that a runaway allocation aborts that
+/// child (and is attributed to the run in flight) instead of exhausting the machine
+pub fn limit_address_space(bytes: u64) {
+    unsafe {
+        let lim = libc::rlimit { rlim_cur: bytes as libc::rlim_t, rlim_max: bytes as libc::rlim_t };
+        libc::setrlimit(libc::RLIMIT_AS, &lim);
+    }
+}
+
+pub const CHILD_ADDRESS_SPACE: u64 = 6 << 30;
+
 /// child side: run shard k of n single-threaded, reporting progress on stdout. The shard is
 /// processed in chunks of the global index space; after each chunk a partial result line `R` is
 /// printed, so that a worker that dies loses at most one chunk of statistics and its replacement
 /// resumes at the chunk in flight (`start`).
 pub fn worker_main(prop: &str, tier: Tier, seed: u64, k: u64, n: u64, runs: u64, skip: &[u64], start: u64) -> i32 {
     let Some(spec) = engine::spec_for(prop, tier) else { return 2 };
+    limit_address_space(CHILD_ADDRESS_SPACE);
     let known = engine::load_known();
-    let total = runs + engine::deep_count(&spec, tier) + engine::enum_count(&spec, tier);
+    let total = runs + engine::extra_count(&spec, tier);
     let out = std::io::stdout();
     let cb = |i: u64, begin: bool| {
         let mut o = out.lock();
@@ -231,6 +243,7 @@ pub fn exec_scenario_main(prop: &str, path: &str) -> i32 {
     let Ok(txt) = std::fs::read_to_string(path) else { return 2 };
     let Ok(v) = serde_json::from_str::<Value>(&txt) else { return 2 };
     let Ok(sc) = Scenario::from_json(&v) else { return 2 };
+    limit_address_space(CHILD_ADDRESS_SPACE);
     let (trace, spy) = match engine::solo_spec(prop) {
         Some(spec) => (engine::trace_for(&spec, &sc), spec.spy),
         None => (crate::exec::Trace::Light, false),
